@@ -263,17 +263,56 @@ fn conjuncts(e: &Ex, out: &mut Vec<Ex>) {
     }
 }
 
-/// Model of the classified deviation `partition-filter-null-treated-as-true`: a conjunct that only
-/// uses partition columns keeps the file when it evaluates to NULL.
-fn eval_partition_null_as_true(e: &Ex, row: &[Value]) -> bool {
+fn has_nullif(e: &Ex) -> bool {
+    match e {
+        Ex::NullIf(..) => true,
+        Ex::Col(_) | Ex::Lit(..) | Ex::DateStr(_) => false,
+        Ex::Cmp(a, _, c) | Ex::And(a, c) | Ex::Or(a, c) | Ex::Coalesce(a, c) => has_nullif(a) || has_nullif(c),
+        Ex::InList(a, l, _) => has_nullif(a) || l.iter().any(has_nullif),
+        Ex::Between(a, lo, hi, _) => has_nullif(a) || has_nullif(lo) || has_nullif(hi),
+        Ex::Not(a) | Ex::IsNull(a, _) | Ex::Like(a, _, _) | Ex::Upper(a) | Ex::Length(a) | Ex::Concat(a, _) | Ex::Substr(a, _, _) | Ex::Abs(a) | Ex::Add(a, _) | Ex::Mod(a, _) | Ex::CastStr(a, _) | Ex::Year(a) | Ex::AddDays(a, _) => has_nullif(a),
+    }
+}
+
+/// Localisation of the classified deviation `partition-filter-null-treated-as-true`:
+/// `filter_partitioned_file` evaluates the conjunction P of the pushed-down partition filters and
+/// reads `value(0)` of the boolean result without its validity, so a file whose P is NULL is kept
+/// or dropped depending on the value bit the kernels happened to compute. A conjunct counts as a
+/// partition filter when it only uses partition columns, or — because the optimizer simplifies e.g.
+/// `(A AND (A OR x)) OR N` to `A OR N` — when it is a function of the partition values on the
+/// table's rows and contains a NULL-producing `nullif` over a partition column.
+/// True iff every extra row has P IS NULL and passes all remaining conjuncts.
+fn null_partition_filter_explains(e: &Ex, members: &[&DataFile], extra: &[i64]) -> bool {
     let mut cs = vec![];
     conjuncts(e, &mut cs);
-    cs.iter().all(|c| {
-        let mut used = BTreeSet::new();
-        cols_used(c, &mut used);
-        let v = eval(c, row);
-        v == Value::Bool(true) || (v.is_null() && !used.is_empty() && used.iter().all(|i| *i >= 3))
-    })
+    let partition_function: Vec<bool> = cs
+        .iter()
+        .map(|c| {
+            let mut used = BTreeSet::new();
+            cols_used(c, &mut used);
+            if !used.is_empty() && used.iter().all(|i| *i >= 3) {
+                return true;
+            }
+            has_nullif(c)
+                && members.iter().all(|df| df.rows.iter().all(|r| eval(c, r) == eval(c, &df.rows[0])))
+                && members.iter().all(|a| members.iter().all(|b| a.pvals != b.pvals || eval(c, &a.rows[0]) == eval(c, &b.rows[0])))
+        })
+        .collect();
+    !extra.is_empty()
+        && extra.iter().all(|id| {
+            let Some(r) = members.iter().flat_map(|df| df.rows.iter()).find(|r| r[0] == Value::Int(*id)) else { return false };
+            let mut p = Some(true);
+            let mut rest_true = true;
+            for (c, pf) in cs.iter().zip(partition_function.iter()) {
+                let v = eval(c, r);
+                if *pf {
+                    p = and3(p, tv(&v));
+                } else {
+                    rest_true &= v == Value::Bool(true);
+                }
+            }
+            p.is_none() && rest_true
+        })
 }
 
 fn cols_used(e: &Ex, out: &mut BTreeSet<usize>) {
@@ -887,11 +926,7 @@ fn run_layout(rep: &Report, l: &Layout, seed: u64, n_random: usize, selftest: bo
                         let missing: Vec<&DataFile> = members.iter().copied().filter(|m| matching_files.contains(&m.rel) && !out.scanned.contains(&m.rel)).collect();
                         let extra: Vec<i64> = ids.iter().copied().filter(|i| expect.binary_search(i).is_err()).collect();
                         // does the modelled deviation (NULL partition conjunct keeps the file) reproduce the observation?
-                        let null_model = f.is_some_and(|f| {
-                            let mut m: Vec<i64> = members.iter().flat_map(|df| df.rows.iter()).filter(|r| eval_partition_null_as_true(f, r)).filter_map(|r| if let Value::Int(i) = r[0] { Some(i) } else { None }).collect();
-                            m.sort();
-                            m == ids
-                        });
+                        let null_model = !lost && f.is_some_and(|f| null_partition_filter_explains(f, &members, &extra));
                         let sig = if f.is_none() {
                             if c.glob.is_some() { "glob-location-covers-wrong-files".to_string() } else { "directory-location-covers-wrong-files".to_string() }
                         } else if lost && !missing.is_empty() && missing.iter().all(|m| !m.canonical) {
